@@ -7,8 +7,8 @@ Model of the worksheet cell grid and of the merge rectangles (property C03).
             the cell-level effect of SetCellInt/Uint/Bool/Float/Str/Default/RichText,
             SetCellFormula (normal formulas), setCellTimeFunc's placement
   styles.go SetCellStyle, GetCellStyle (read-only through ws.getCell)
-  merge.go  MergeCell, UnmergeCell, GetMergeCells' normalisation: overlapRange is implicit,
-            flatMergedCells, mergeOverlapCells, mergeCell (with the in-place rect mutation)
+  merge.go  MergeCell, UnmergeCell, GetMergeCells' normalisation: flatMergedCells (fixpoint of
+            absorbing overlapping ranges into their bounding box), mergeOverlapCells, mergeCell
 over the dense representation `rows : List Row`, `Row.cells : List Cell`.
 
 Coordinates are the *decoded* 1-based (col,row) of `CellNameToCoordinates`; the string
@@ -148,18 +148,20 @@ def makeContiguousColumns (rows : List Row) (fromRow toRow colCount : Nat) : Lis
 def Rect.contains (q : Rect) (c r : Nat) : Bool :=
   Facts.C03.cellInRangeConds.all fun (i, op, j) => cmpOp op (if i = 0 then c else r) (q.idx j)
 
-/-- `isOverlap(rect1, rect2)`: the eight corner tests -/
+/-- `isOverlap(rect1, rect2)`: the comparisons between the coordinates of the two rectangles, read
+from the extracted table (an interval intersection test since the fix) -/
 def isOverlap (a b : Rect) : Bool :=
-  Facts.C03.isOverlapCorners.any fun (w, i, j) =>
-    if w = 1 then b.contains (a.idx i) (a.idx j) else a.contains (b.idx i) (b.idx j)
+  Facts.C03.isOverlapConds.all fun (w, i, op, j) =>
+    if w = 1 then cmpOp op (a.idx i) (b.idx j) else cmpOp op (b.idx i) (a.idx j)
 
-/-- `mergeCell(cell1, cell2)`: the conditional swaps mutate both rect slices in place;
-returns (rect1 after, rect2 after). rect1 becomes the bounding box. -/
-def mergeCellRects (a b : Rect) : Rect × Rect :=
-  Facts.C03.mergeCellSwaps.foldl
-    (fun (p : Rect × Rect) (sw : Nat × String) =>
-      if cmpOp sw.2 (p.1.idx sw.1) (p.2.idx sw.1) then (p.1.setIdx sw.1 (p.2.idx sw.1), p.2.setIdx sw.1 (p.1.idx sw.1)) else p)
-    (a, b)
+/-- the rectangle `mergeCell(cell1, cell2)` builds: element k is `min`/`max` of the k-th coordinates as the
+extracted literal says (the bounding box); the arguments are not modified any more -/
+def bbox (a b : Rect) : Rect :=
+  let el (k : Nat) : Nat :=
+    match Facts.C03.mergeCellBox[k]? with
+    | some (f, i) => if f = "min" then min (a.idx i) (b.idx i) else max (a.idx i) (b.idx i)
+    | none => 0
+  ⟨el 0, el 1, el 2, el 3⟩
 
 /-- points of a rectangle in the order of `for col … { for row … }` -/
 def colMajor (q : Rect) : List (Nat × Nat) :=
@@ -181,96 +183,31 @@ def anchor (ms : List MObj) (c r : Nat) : Nat × Nat :=
   | some m => (m.ref.c1, m.ref.r1)
   | none => (c, r)
 
-/-! ### the merge normalisation (merge.go: mergeOverlapCells / flatMergedCells)
+/-! ### the merge normalisation (merge.go: mergeOverlapCells = flatMergedCells)
 
-Pointer identity matters (`matrix[x][y] == cell`), so every object gets an id: the
-entries of the incoming list are 0 … n-1, the object allocated by `mergeCell` in
-iteration i is n+i. The matrix is kept as the list of painted layers, newest first;
-`matrix[x][y]` is the newest layer containing (x,y). In `flatMergedCells` the reads of
-one iteration all precede the writes to the same position and every position of the
-rect is visited once, so reading from the matrix as it was before the iteration is
-what the Go loop does. `heap` maps an id to its (mutable) rect. -/
+For every entry in list order: collect the live entries its rectangle overlaps (`isOverlap` against the
+rectangle as it is at the start of the round), stop if there are none, otherwise drop them from the live
+list, grow the rectangle to the bounding box of all of them (`mergeCell` folded over the hits) and try
+again; finally append the entry — the original object if nothing was absorbed, a new one (Ref = the box)
+otherwise. The `for { … }` loop is modelled with fuel; `live.length` rounds always suffice because every
+round removes at least one live entry (`Lemmas.Grid4.absorb_fuel`). No matrix, no pointer identity. -/
 
-abbrev Matrix := List (Rect × Option Nat)
-
-def Matrix.get (m : Matrix) (x y : Nat) : Option Nat :=
-  match m.find? (fun l => l.1.contains x y) with
-  | some l => l.2
-  | none => none
-
-structure FlatSt where
-  matrix : Matrix := []
-  heap : List (Nat × Rect) := []        -- id ↦ cached rect, newest binding first
-  cells : List (Nat × Rect) := []       -- Cells[i] as (id, Ref), in list order (reversed while building)
-
-def heapGet (h : List (Nat × Rect)) (id : Nat) : Rect :=
-  match h.find? (fun e => e.1 == id) with
-  | some e => e.2
-  | none => ⟨0, 0, 0, 0⟩
-
-/-- one iteration of the loop of `flatMergedCells` for `Cells[i] = (id, ref)`; `nid` is the
-id of the object `mergeCell` would allocate -/
-def flatStep (st : FlatSt) (id : Nat) (ref : Rect) (nid : Nat) : FlatSt :=
-  let rect := heapGet st.heap id
-  let overlaps := (colMajor rect).filterMap fun p => st.matrix.get p.1 p.2
-  let m1 : Matrix := (rect, some id) :: st.matrix
-  if overlaps.isEmpty then
-    { st with matrix := m1, cells := (id, ref) :: st.cells }
-  else
-    -- newCell = mergeCell(cell, overlapCell) for every overlapCell: both rects are mutated
-    let heap' := overlaps.foldl
-      (fun h o =>
-        let p := mergeCellRects (heapGet h id) (heapGet h o)
-        (id, p.1) :: (o, p.2) :: h) st.heap
-    let newRect := heapGet heap' id
-    { matrix := (newRect, some nid) :: m1
-      heap := (nid, newRect) :: heap'
-      cells := (nid, newRect) :: st.cells }
-
-/-- the selection loop of `mergeOverlapCells` -/
-def selectStep (heap : List (Nat × Rect)) (acc : Matrix × List (Nat × Rect)) (cell : Nat × Rect) : Matrix × List (Nat × Rect) :=
-  let rect := heapGet heap cell.1
-  if acc.1.get rect.c1 rect.r1 == some cell.1 then
-    ((rect, none) :: acc.1, cell :: acc.2)
-  else acc
+def absorb : Nat → List MObj → MObj → List MObj
+  | 0, live, q => live ++ [q]
+  | n + 1, live, q =>
+    let hit := live.filter fun k => isOverlap q.rect k.rect
+    if hit.isEmpty then live ++ [q]
+    else
+      let box := hit.foldl (fun b k => bbox b k.rect) q.rect
+      absorb n (live.filter fun k => !isOverlap q.rect k.rect) ⟨box, box⟩
 
 /-- `f.mergeOverlapCells(ws)` on the merge list -/
 def mergeOverlapCells (ms : List MObj) : List MObj :=
-  let n := ms.length
-  let ids := List.range n
-  let heap0 : List (Nat × Rect) := (ids.zip ms).map fun (i, m) => (i, m.rect)
-  let st := (ids.zip ms).foldl (fun st (im : Nat × MObj) => flatStep st im.1 im.2.ref (n + im.1))
-    { heap := heap0 }
-  let cells := st.cells.reverse
-  let sel := cells.foldl (selectStep st.heap) (st.matrix, [])
-  sel.2.reverse.map fun c => { ref := c.2, rect := heapGet st.heap c.1 }
+  ms.foldl (fun live q => absorb live.length live q) []
 
-/-! ### what the normalisation is meant to compute (Spec)
-
-Left to right over the list, keeping the *live* ranges: a new rectangle absorbs every live range it
-meets into their common bounding box; the others stay, in order, and the box goes to the end. The
-one-pass code is exact as long as the box meets none of the ranges that stay — a **hazard** otherwise
-(`none`): that is the case the code does not re-check. -/
-
-/-- two rectangles share a cell (interval test) -/
+/-- two rectangles share a cell (the interval test, Spec side) -/
 def meetsB (a b : Rect) : Bool :=
   decide (a.c1 ≤ b.c2 ∧ b.c1 ≤ a.c2 ∧ a.r1 ≤ b.r2 ∧ b.r1 ≤ a.r2)
-
-/-- bounding box -/
-def bbox (a b : Rect) : Rect :=
-  ⟨min a.c1 b.c1, min a.r1 b.r1, max a.c2 b.c2, max a.r2 b.r2⟩
-
-def normStep (live : List Rect) (q : Rect) : Option (List Rect) :=
-  let keep := live.filter fun k => !meetsB q k
-  let box := (live.filter fun k => meetsB q k).foldl bbox q
-  if keep.any (fun k => meetsB box k) then none else some (keep ++ [box])
-
-/-- `some L`: no hazard anywhere, `L` is the disjoint normal form; `none`: a bounding box bridged into a
-range the new rectangle itself did not meet -/
-def normSpec (rs : List Rect) : Option (List Rect) :=
-  rs.foldl (fun acc q => match acc with
-    | some live => normStep live q
-    | none => none) (some [])
 
 /-! ### payloads -/
 
